@@ -57,7 +57,15 @@ def ncomb(l, K):
          out="larger hierarchies")
 def index_tables(cx, nbath, depth):
     hy, inp = make_hierarchy(cx, nbath, depth, 2)
-    K, D, hs = nbath, depth, hy.hsize
+    check_tables(cx, hy, nbath, depth, inp["tau"])
+
+
+def check_tables(cx, hy, K, D, taus):
+    """every statement about the index set, the level layout, the links and Gamma, for the hierarchy object
+    `hy` that was REQUESTED with K baths and depth D (decay times taus)"""
+    hs = hy.hsize
+    inp = dict(tau=taus)
+    cx.prove("depth_as_requested", int(hy.depth) == D)
     hinds = numpy.asarray(hy.hinds)
     nm1, np1 = numpy.asarray(hy.nm1), numpy.asarray(hy.np1)
     levels, levl = list(hy.levels), list(hy.levlengths)
@@ -157,6 +165,37 @@ def index_tables(cx, nbath, depth):
     cx.prove("lower_absent_iff_zero", z3.Not(dn_boundary))
     link_range = z3.And(inrow(r), ink(kv), z3.Or(Pf(r, kv) < -1, Mf(r, kv) < -1))
     cx.prove("link_values", z3.Not(link_range))
+
+
+@harness("C16", "builder_entry_points",
+         quick=[dict(depth=d, via=v) for d in (1, 3) for v in ("hierarchy", "propagator")],
+         thorough=[dict(depth=d, via=v) for d in (0, 1, 2, 3, 4, 6) for v in ("hierarchy", "propagator")],
+         functions=["quantarhei/builders/opensystem.py:OpenSystem.get_KTHierarchy",
+                    "quantarhei/builders/opensystem.py:OpenSystem.get_KTHierarchyPropagator",
+                    F + ":KTHierarchy.__init__", F + ":KTHierarchyPropagator.__init__"],
+         bound="a dimer aggregate whose two molecules have different baths (correlation times 100 and 80 fs): the "
+               "hierarchy obtained through Aggregate.get_KTHierarchy(depth) and through "
+               "get_KTHierarchyPropagator(depth) satisfies the same table statements as above for the REQUESTED depth "
+               "(1, 3; thorough 0-6), and its per-bath decay rates and coupling constants are those of the right bath",
+         out="")
+def builder_entry_points(cx, depth, via):
+    from harness.common import build_aggregate
+    import quantarhei as qr
+    reorgs = [20.0, 35.0]
+    agg = build_aggregate(cx, 2, Nt=4, reorgs=reorgs)
+    with cx.concrete():
+        if via == "hierarchy":
+            hy = agg.get_KTHierarchy(depth=depth)
+        else:
+            hy = agg.get_KTHierarchyPropagator(depth=depth).hy
+        sbi = agg.get_SystemBathInteraction()
+        taus = [float(sbi.get_correlation_time(k)) for k in range(sbi.N)]
+        lams = [float(sbi.get_reorganization_energy(k)) for k in range(sbi.N)]
+    cx.prove("two_different_baths", sbi.N == 2 and taus[0] != taus[1] and lams[0] != lams[1])
+    check_tables(cx, hy, sbi.N, depth, taus)
+    for k in range(sbi.N):
+        cx.prove_eq("decay_rate_of_bath[%d]" % k, hy.gamma[k], 1.0 / taus[k], tol=1e-12)
+        cx.prove_eq("reorganisation_energy_of_bath[%d]" % k, hy.lam[k], lams[k], tol=1e-12)
 
 
 def hermitian_ados(cx, hs, N, zero_above=False):
